@@ -39,6 +39,14 @@ func tText(c context, s []byte) (context, int) {
 		} else if i+4 <= len(s) && bytes.Equal(commentStart, s[i:i+4]) {
 			// The comment is inside the element that the text is in.
 			return context{state: stateHTMLCmt, element: c.element, enclosing: c.enclosing, inNoscript: c.inNoscript}, i + 4
+		} else if i+9 <= len(s) && bytes.EqualFold(doctypeStart, s[i:i+9]) {
+			// A DOCTYPE ends at the first ">", whatever is in between: no tags start inside it.
+			g := bytes.IndexByte(s[i:], '>')
+			if g == -1 {
+				return c, len(s)
+			}
+			k = i + g + 1
+			continue
 		}
 		i++
 		end := false
@@ -75,6 +83,8 @@ func tText(c context, s []byte) (context, int) {
 		k = j
 	}
 }
+
+var doctypeStart = []byte("<!DOCTYPE")
 
 // forbiddingElement returns the name of the element that c is in if actions are not allowed
 // in its content ("*" if it has no single name), and "" otherwise.
